@@ -224,6 +224,31 @@ def longruns(patterns, lru=0):
     return out
 
 
+def bigw_space(tier):
+    """Weights whose sums cross u32::MAX (capacity 2^33, by-value weigher)."""
+    thorough = tier == "thorough"
+    out = []
+    for kind in ("U", "S"):
+        for ex in (dict(), dict(ttl=2)):
+            kw = dict(kind=kind, cap=1 << 33, w=1, alpha="bigw", keys=3, D=6 if thorough else 5, Q=2, A=1 if ex else 0, **ex)
+            out.append(seqjob(name("bigw", kw), **kw))
+            if kind == "S":
+                k2 = dict(kw, autosync=1, lru=1, Q=0, A=0) if not ex else None
+                if k2:
+                    out.append(seqjob(name("bigw-lru", k2), **k2))
+    return out
+
+
+def scripted(kinds=("U", "S")):
+    out = []
+    for kind in kinds:
+        out.append({"id": "long-massinval-%s" % kind, "argv": ["longrun", spec(kind=kind, cap="none", keys=3, A=9), "massinval", "150"]})
+        out.append({"id": "long-massinval-ttl-%s" % kind, "argv": ["longrun", spec(kind=kind, cap="none", ttl=3, keys=3, A=9), "massinval", "150"]})
+        for n in (10, 12):
+            out.append({"id": "long-manyvictims-%s-%d" % (kind, n), "argv": ["longrun", spec(kind=kind, cap=n, w=1, keys=3, lru=1, autosync=1 if kind == "S" else 0, A=0), "manyvictims", str(n)]})
+    return out
+
+
 def from_full(prop, tier):
     """Searches started from non-initial states: a cache filled to its capacity."""
     thorough = tier == "thorough"
@@ -258,6 +283,10 @@ def jobs_for(prop, tier):
         j = j + longruns_expiry(prop)
     if prop in ("C03", "C04", "C10", "C11", "C08"):
         j = j + from_full(prop, tier)
+    if prop in ("C04", "C08", "C10", "C12", "C13"):
+        j = j + bigw_space(tier)
+    if prop in ("C01", "C07", "C12", "C13", "C10", "C11"):
+        j = j + scripted()
     # long scripted histories through the same per-step oracles (thresholds beyond any
     # exhaustive depth: sketch enabled at half full, 128-word table, batches)
     if prop == "C14":
